@@ -91,7 +91,7 @@ def prepare(need_model=True, need_go=True, verbose=False):
         # 3. extraction + OCaml driver, keyed by the content of every model source
         t0 = time.time()
         if need_model:
-            srcs = [os.path.join(COQ, s) for s in coq_sources() if not s.startswith(("Props/", "Proofs/", "Tie/"))]
+            srcs = [os.path.join(COQ, s) for s in coq_sources() if not s.startswith(("Props/", "Tie/"))]
             srcs += [os.path.join(COQ, "Extract", "Extract.v")] + glob.glob(os.path.join(VERIF, "ocaml", "*.ml"))
             key = _hash_files(srcs)
             d = os.path.join(CACHE, "ocaml", key)
